@@ -20,7 +20,7 @@ fn net_from_mask(n: usize, mask: u64, mult2: u64) -> Net {
             }
         }
     }
-    Net { n, edges }
+    Net { n, edges, xy: None }
 }
 
 pub fn check_net(net: &Net, component: &str, st: &mut Stats) {
@@ -100,17 +100,17 @@ fn family_nets() -> Vec<(String, Net)> {
     let mut out = vec![];
     for n in [10usize, 30, 60] {
         // chain
-        out.push((format!("chain{}", n), Net { n, edges: (0..n - 1).map(|i| (i, i + 1, 1.0)).collect() }));
+        out.push((format!("chain{}", n), Net { n, edges: (0..n - 1).map(|i| (i, i + 1, 1.0)).collect(), xy: None }));
         // ring
-        out.push((format!("ring{}", n), Net { n, edges: (0..n).map(|i| (i, (i + 1) % n, 1.0)).collect() }));
+        out.push((format!("ring{}", n), Net { n, edges: (0..n).map(|i| (i, (i + 1) % n, 1.0)).collect(), xy: None }));
         // nested cycles: ring over first half, chain to second half ring, one back edge variant
         let h = n / 2;
         let mut e: Vec<(usize, usize, f64)> = (0..h).map(|i| (i, (i + 1) % h, 1.0)).collect();
         e.extend((h..n).map(|i| (i, if i + 1 < n { i + 1 } else { h }, 1.0)));
         e.push((0, h, 1.0));
-        out.push((format!("two_rings_bridge{}", n), Net { n, edges: e.clone() }));
+        out.push((format!("two_rings_bridge{}", n), Net { n, edges: e.clone(), xy: None }));
         e.push((n - 1, 1, 1.0));
-        out.push((format!("two_rings_merged{}", n), Net { n, edges: e }));
+        out.push((format!("two_rings_merged{}", n), Net { n, edges: e, xy: None }));
         // hub of degree 8 with return edges from every second spoke, plus isolated vertices
         let mut e = vec![];
         for k in 1..=8usize.min(n - 1) {
@@ -119,7 +119,7 @@ fn family_nets() -> Vec<(String, Net)> {
                 e.push((k, 0, 1.0));
             }
         }
-        out.push((format!("hub{}", n), Net { n, edges: e }));
+        out.push((format!("hub{}", n), Net { n, edges: e, xy: None }));
         // ladder of 2-cycles: i <-> i+1 for even i, i -> i+1 for odd i
         let mut e = vec![];
         for i in 0..n - 1 {
@@ -128,7 +128,7 @@ fn family_nets() -> Vec<(String, Net)> {
                 e.push((i + 1, i, 1.0));
             }
         }
-        out.push((format!("ladder{}", n), Net { n, edges: e }));
+        out.push((format!("ladder{}", n), Net { n, edges: e, xy: None }));
     }
     out
 }
